@@ -34,7 +34,7 @@ func MergeBlockBodySchemas(block *hcl.Block, blockSchema *schema.BlockSchema) (*
 		for bType, block := range depSchema.Blocks {
 			copiedBlock := block.Copy()
 			// propagate DynamicBlocks extension to any nested blocks
-			if mergedSchema.Extensions != nil && mergedSchema.Extensions.DynamicBlocks {
+			if mergedSchema.Extensions != nil && mergedSchema.Extensions.DynamicBlocks && copiedBlock.Body != nil {
 				if copiedBlock.Body.Extensions == nil {
 					copiedBlock.Body.Extensions = &schema.BodyExtensions{}
 				}
@@ -69,6 +69,9 @@ func MergeBlockBodySchemas(block *hcl.Block, blockSchema *schema.BlockSchema) (*
 		// propagate DynamicBlocks extension to any nested blocks
 		if mergedSchema.Extensions != nil && mergedSchema.Extensions.DynamicBlocks {
 			for bType, block := range mergedSchema.Blocks {
+				if block.Body == nil {
+					continue
+				}
 				if block.Body.Extensions == nil {
 					block.Body.Extensions = &schema.BodyExtensions{}
 				}
